@@ -108,8 +108,43 @@ Definition mismatch (k : c06case) : list N :=
         (if lists_eqb bools_eqb polls (o_polls k) then [] else [21%N])
       else [22%N]).
 
+(* WhenTime with a duplicated state (`WhenTime(S{A,A}, Time{t1,t2})`): the binding
+   counts two states but keeps one completion flag per name, so it never
+   completes by ticks (theorem whentime_dup_refuted; NoDup is the hypothesis of
+   whentime_partial). The lost wake-ups of exactly those subscriptions are
+   reported under their own code 632: the verdicts of the tracks are independent
+   of each other, so the codes such subscriptions contribute are the multiset
+   difference between the verdicts of the history and the verdicts of the same
+   history with these subscriptions left out. Every other code they produce
+   (spurious, closed at return, Dispose) keeps its number. *)
+Definition dup_time (o : sop) : bool :=
+  match o with
+  | OWhenTime sts _ _ => negb (Nat.eqb (length (uniq sts)) (length sts))
+  | _ => false
+  end.
+Definition mask_dup (e : sevent) : sevent :=
+  match e with
+  | EOp k v o => if dup_time o then EOp k v ONop else e
+  | _ => e
+  end.
+Fixpoint remove_one (x : N) (l : list N) : list N :=
+  match l with
+  | [] => []
+  | y :: r => if N.eqb x y then r else y :: remove_one x r
+  end.
+Definition msub (a b : list N) : list N := fold_left (fun acc x => remove_one x acc) b a.
+Definition dup_code (c : N) : N :=
+  (* the lost wake-up codes: held at a processed / unprocessed transition, after
+     SetSchema, a pending identical (never completing) subscription reused *)
+  if N.eqb c 631 || N.eqb c 639 || N.eqb c 637 || N.eqb c 635 then 632%N else c.
+
 Definition viol (k : c06case) : list N :=
-  violations (case_events k) (o_rets k) (o_polls k).
+  let es := case_events k in
+  let all := violations es (o_rets k) (o_polls k) in
+  if existsb (fun e => match e with EOp _ _ o => dup_time o | _ => false end) es then
+    let rest := violations (map mask_dup es) (o_rets k) (o_polls k) in
+    rest ++ map dup_code (msub all rest)
+  else all.
 
 Definition check_one (ic : N * c06case) : list (N * N * N) :=
   let '(i, k) := ic in
